@@ -19,6 +19,7 @@ import GoNfsd.Props.C04
 import GoNfsd.Lemmas.BlockMap
 import GoNfsd.Lemmas.ShrinkTree
 import GoNfsd.Lemmas.InoOps
+import GoNfsd.Lemmas.Alloc
 
 namespace GoNfsd.Props.C05
 open GoNfsd.Model.Fsck GoNfsd.Gen.Consts GoNfsd.Gen.Super GoNfsd.Props.C04
@@ -347,5 +348,45 @@ example :
     (f.2.size, f.2.shrink, f.2.blks, f.1.allocs, f.1.freed) =
       (50000, 13, [100, 101, 0, 0, 0, 0, 0, 0, 107, 0], [109, 110], [102, 103, 104, 105, 106]) := by
   decide
+
+/-! ### the allocator itself (model M2, tied to go-journal's `alloc.Alloc` by the `alloc` correspondence) -/
+
+open GoNfsd.Model.Alloc in
+/-- A number handed out was free, is in range, and its bit is the only thing that changes; a
+    failed allocation changes no bit.  (Number 0 is reserved: its bit is set at format time.) -/
+theorem allocator_hands_out_only_free_numbers (a : Alloc) (h0 : a.bits.getD 0 true = true) (hpos : 0 < a.size) :
+    ((a.allocNum).2 ≠ 0 →
+      a.bits.getD (a.allocNum).2 true = false ∧ (a.allocNum).2 < a.size ∧
+      (a.allocNum).1.bits = a.bits.set (a.allocNum).2 true) ∧
+    ((a.allocNum).2 = 0 → (a.allocNum).1.bits = a.bits) :=
+  Alloc.allocNum_sound a h0 hpos
+
+open GoNfsd.Model.Alloc in
+/-- The free count is exact: an allocation takes exactly one, a failed one none, a free of a
+    number in use gives exactly one back. -/
+theorem allocator_free_count_is_exact (a : Alloc) (h0 : a.bits.getD 0 true = true) (hpos : 0 < a.size) :
+    (a.allocNum).1.numFree + (if (a.allocNum).2 = 0 then 0 else 1) = a.numFree ∧
+    ∀ a' n, a.freeNum n = some a' → a.bits.getD n true = true → a'.numFree = a.numFree + 1 :=
+  ⟨Alloc.allocNum_numFree a h0 hpos, fun a' n h hb => Alloc.freeNum_numFree a a' n h hb⟩
+
+open GoNfsd.Model.Alloc in
+/-- "No space" is reported only when nothing is free — a freed number is never stranded behind
+    the roving pointer: the scan visits every position before giving up. -/
+theorem allocator_reports_full_only_when_full (a : Alloc) (h0 : a.bits.getD 0 true = true)
+    (hpos : 0 < a.size) (hn : a.next < a.size) (hz : (a.allocNum).2 = 0) : a.numFree = 0 :=
+  Alloc.allocNum_none_means_full a h0 hpos hn hz
+
+open GoNfsd.Model.Alloc GoNfsd.Model.BlockMap in
+/-- THE ALLOCATOR MEETS THE HYPOTHESIS OF THE BLOCK-MAP THEOREMS: the numbers it hands out in a row
+    were all free when the row began and are pairwise distinct — the stream `bmap_ok` and
+    `nothing_mapped_beyond_the_bookkeeping` assume. -/
+theorem allocator_stream_is_fresh_and_distinct (a : Alloc) (k : Nat) (h0 : a.bits.getD 0 true = true)
+    (hpos : 0 < a.size) :
+    (∀ n ∈ (a.allocMany k).2, n ≠ 0 ∧ n < a.size ∧ a.bits.getD n true = false) ∧
+    DistinctNZ (a.allocMany k).2 := by
+  obtain ⟨h1, h2, _⟩ := Alloc.allocMany_fresh k a h0 hpos
+  refine ⟨h1, ?_⟩
+  unfold DistinctNZ
+  exact List.Pairwise.imp (fun hne => Or.inr (Or.inr hne)) h2
 
 end GoNfsd.Props.C05
